@@ -45,6 +45,9 @@ func (a *Threshold) UnmarshalCBOR(data []byte) error {
 	if err != nil {
 		return errs.Wrap(err).WithMessage("failed to unmarshal Threshold access structure")
 	}
+	if dto == nil {
+		return errs.Wrap(serde.ErrNull).WithMessage("failed to unmarshal Threshold access structure")
+	}
 	ps := hashset.NewComparable(slices.Collect(maps.Keys(dto.Ps))...)
 
 	a2, err := NewThresholdAccessStructure(dto.T, ps.Freeze())
